@@ -41,7 +41,7 @@ struct Edit { char kind; int pos; long a; };
 static const char *kindname(char k)
 {
 	switch (k) { case 'U': return "unknown_tag"; case 'A': return "alias_tag"; case 'M': return "known_tag_inserted"; case 'F': return "framing_dup";
-	case 'D': return "dup"; case 'X': return "delete"; case 'G': return "group_first_swapped"; case 'C': return "chksum"; case 'N': return "numtext"; case 'L': return "long_value"; }
+	case 'D': return "dup"; case 'X': return "delete"; case 'G': return "group_first_swapped"; case 'C': return "chksum"; case 'N': return "numtext"; case 'L': return "long_value"; case 'B': return "dup_before"; case 'S': return "length_off_by_one"; case 'J': return "data_separator_replaced"; }
 	return "none";
 }
 static const char *numvar[] = { "007", "-5", "5.0", ".5", "5.", "+5", "5x", "5 0", " 5", "0x1e" };
@@ -125,10 +125,18 @@ struct Harness {
 				if (a && std::find(cand.begin(), cand.end(), a) == cand.end()) cand.push_back(a);
 			}
 			for (int c : cand) for (long k = 1; k <= 2; ++k) { E.push_back({ 'A', p, c + 65536 * k }); if (k == 1) P.push_back(E.back()); }
+			for (int c : cand) { E.push_back({ 'A', p, c + 4294967296L }); E.push_back({ 'A', p, c + 3 * 4294967296L }); }	// tags that only alias after wrapping a 32-bit accumulator
 			for (int t : { H, Bt, T }) if (t) { E.push_back({ 'M', p, t }); P.push_back(E.back()); }
 			for (long t : { 8L, 9L, 35L, 10L }) { E.push_back({ 'F', p, t }); if (t == 35) P.push_back(E.back()); }
 		}
 		for (int i = 3; i <= n - 2; ++i) { E.push_back({ 'D', i, 0 }); P.push_back(E.back()); E.push_back({ 'D', i, 1 }); }
+		for (int i = 4; i <= n - 2; ++i) E.push_back({ 'B', i, 0 });
+		// a Length field directly followed by its data field: the announced length one too small / one too large
+		for (int i = 3; i + 1 <= n - 2; ++i) {
+			auto f = S.fields.find(atoi(b.toks[i].tag.c_str())), g = S.fields.find(atoi(b.toks[i + 1].tag.c_str()));
+			if (f != S.fields.end() && g != S.fields.end() && f->second.is_length() && g->second.vclass() == sm::V_DATA && b.ref.ctx[i].depth == 0)
+				{ for (long d : { -1L, 1L, 99L }) E.push_back({ 'S', i, d }); if (i + 2 <= n - 2) E.push_back({ 'J', i, 0 }); }
+		}
 		for (int i = 0; i <= n - 1; ++i) { E.push_back({ 'X', i, 0 }); P.push_back(E.back()); }
 		for (int i = 3; i + 1 <= n - 2; ++i) {
 			const fe::Ctx& c = b.ref.ctx[i], &d = b.ref.ctx[i + 1];
@@ -153,7 +161,7 @@ struct Harness {
 	static bool compatible(const Edit& a, const Edit& b)
 	{
 		auto touched = [](const Edit& e, int& lo, int& hi) { lo = hi = -1;
-			switch (e.kind) { case 'D': case 'X': case 'N': case 'L': case 'C': lo = hi = e.pos; break; case 'G': lo = e.pos; hi = e.pos + 1; break; } };
+			switch (e.kind) { case 'D': case 'X': case 'N': case 'L': case 'C': case 'B': case 'S': lo = hi = e.pos; break; case 'J': lo = e.pos; hi = e.pos + 2; break; case 'G': lo = e.pos; hi = e.pos + 1; break; } };
 		int al, ah, bl, bh; touched(a, al, ah); touched(b, bl, bh);
 		if (al < 0 || bl < 0) return true;
 		return ah < bl || bh < al;
@@ -169,6 +177,12 @@ struct Harness {
 			case 'U': ins[e.pos].push_back({ std::to_string(e.a), "X" }); break;
 			case 'A': case 'M': case 'F': ins[e.pos].push_back({ std::to_string(e.a), value_for(e.a, b) }); break;
 			case 'D': ins[e.a == 0 ? e.pos + 1 : n - 1].push_back(b.toks[e.pos]); break;
+			case 'B': ins[e.pos - 1].push_back(b.toks[e.pos]); break;	// a copy of the token in front of its predecessor (96=x|95=1|96=x)
+			case 'J': src[e.pos + 1].val += "X" + b.toks[e.pos + 2].tag + "=" + b.toks[e.pos + 2].val; del[e.pos + 2] = 1; break;	// the SOH that ends the data field replaced by 'X'
+			case 'S': {	// Length announces one byte less / more than the data field has; 99: so many more that the value ends exactly in front of the last separator of the message
+				long d = e.a;
+				if (e.a == 99) { d = 0; for (int j = e.pos + 2; j < n; ++j) d += (long)b.toks[j].tag.size() + (long)b.toks[j].val.size() + 2; }
+				src[e.pos].val = std::to_string(atol(b.toks[e.pos].val.c_str()) + d); break; }
 			case 'X': del[e.pos] = 1; break;
 			case 'G': std::swap(src[e.pos], src[e.pos + 1]); break;
 			case 'N': src[e.pos].val = numvar[e.a]; break;
@@ -215,6 +229,13 @@ struct Harness {
 		// value edits outside the sentence of the property: a numeric text that is not in the FIX syntax of the field's type, a
 		// value of FIX8_MAX_FLD_LENGTH bytes or more.  Such a message may be refused; if it is accepted, nothing may be lost
 		bool may_reject = false;
+		// a Length whose text does not say how many bytes its data field has (outside the sentence of the property as well): the
+		// decoder cannot honour both the announced length and the separator; it may refuse, if it accepts nothing may be lost or changed
+		if (v.ok) for (size_t i = 3; i + 2 < t.size(); ++i) {
+			auto f = S.fields.find(atoi(t[i].tag.c_str())), g = S.fields.find(atoi(t[i + 1].tag.c_str()));
+			if (f != S.fields.end() && g != S.fields.end() && f->second.is_length() && g->second.vclass() == sm::V_DATA
+				&& atol(t[i].val.c_str()) != (long)t[i + 1].val.size()) { may_reject = true; tg.insert("length_data_mismatch"); break; }
+		}
 		for (auto& e : es) {
 			if (e.kind == 'N' && !wellformed_variant(b, e)) { may_reject = true; tg.insert("numtext_not_fix_syntax"); }
 			if (e.kind == 'L' && e.a >= 2048) { may_reject = true; tg.insert("value_len_ge:2048"); }
